@@ -141,7 +141,8 @@ def meat(index, rep):
         for f in walk_no_nested(g):
             if isinstance(f, ast.For) and call[0] in list(ast.walk(f)):
                 loopvar = norm_src(f.target)
-                rng = norm_src(f.iter)
+                from .core import Inliner as _Inl5, plain_text as _pt5
+                rng = _pt5(_Inl5(g).at(f).expr(f.iter))
         ok = loopvar is not None and all(kw.get(a) == f"{b}[{loopvar}]" for a, b in pairs.items()) and rng.startswith("range(len(")
         st = [s for s in walk_no_nested(g) if isinstance(s, ast.Assign) and isinstance(s.targets[0], ast.Subscript) and isinstance(s.targets[0].value, ast.Name)
               and norm_src(s.targets[0].slice) == loopvar]
@@ -508,7 +509,8 @@ def zero(index, rep, flow):
 
         it_z.call_hook = hook_z
         e_z = Inliner(fn, max_depth=1).expr(af[0])  # the defining expression of the offered feed; its operands stay opaque locals
-        env_z = {n_.id: Path((n_.id,)) for n_ in ast.walk(e_z) if isinstance(n_, ast.Name) and n_.id not in ("np", "Food")}
+        env_z = {n_.id: Path((n_.id,)) for n_ in ast.walk(e_z) if isinstance(n_, ast.Name) and n_.id not in ("np", "Food")
+                 and not (Interp.resolver is not None and Interp.resolver(n_.id) is not None)}
         env_z[fn.args.args[0].arg] = Obj(pcls_z, {}, "self")
         try:
             v_z = it_z.eval(e_z, env_z)
